@@ -198,7 +198,11 @@ func (r *renderer) body(cmds []string) {
 // one-line or multi-line bodies. stmts must be Normalized.
 func Render(ch Chooser, stmts []Stmt) string {
 	r := &renderer{ch: ch}
-	r.nlMode = ch.Choose("nlmode", 3)
+	if ch.Small() {
+		r.nlMode = ch.Choose("nlmode", 2) // LF or CRLF; mixed line ends are left to the random layouts
+	} else {
+		r.nlMode = ch.Choose("nlmode", 3)
+	}
 	r.blank("startblank")
 	for i, s := range stmts {
 		switch s.Kind {
